@@ -3,6 +3,7 @@ package main
 import (
 	"fmt"
 	"go/types"
+	"sort"
 	"strings"
 
 	"golang.org/x/tools/go/ssa"
@@ -112,4 +113,49 @@ func c04CompositeLoc(c *Ctx) {
 		}
 	}
 	c.Floor(rule, 8)
+}
+
+// c04KeyVerbatim implements C04.key-verbatim: the location bytes of an owner-name key are the location id as declared.
+// Only the NAME is case-folded, before it is put into the key; once the key is assembled it is returned as it is.
+// Rewriting the assembled key (seed c04f: an ASCII fold over the whole key "instead of bytes.ToLower(domain)") also
+// folds location ids that happen to contain a byte in 'A'..'Z': two locations collapse into one key space, and a
+// client of one is served the other's records.
+func c04KeyVerbatim(c *Ctx) {
+	rule := "C04.key-verbatim"
+	c.Rule(rule, "A8 in makedomainkey and makemapkey: no element of the returned key is stored after assembly (no IndexAddr store into a value that reaches the result), and the result is not the output of a bytes/strings rewriting function applied to the assembled key")
+	for _, name := range []string{"makedomainkey", "makemapkey"} {
+		fn := c.Func("dnsdata", name)
+		c.Examined(fn)
+		var bad []string
+		resVals := map[ssa.Value]bool{}
+		for _, leaf := range resultLeaves(fn, 0) {
+			for v := range sourcesOf(leaf.V) {
+				resVals[v] = true
+			}
+			if call, ok := leaf.V.(*ssa.Call); ok {
+				if f := calleeOf(call.Common()); f != nil && f.Pkg() != nil && (f.Pkg().Path() == "bytes" || f.Pkg().Path() == "strings") && f.Type().(*types.Signature).Recv() == nil {
+					bad = append(bad, fmt.Sprintf("result rewritten by %s.%s at %s", f.Pkg().Path(), f.Name(), c.relPos(call.Pos())))
+				}
+			}
+		}
+		for _, b := range fn.Blocks {
+			for _, in := range b.Instrs {
+				st, ok := in.(*ssa.Store)
+				if !ok {
+					continue
+				}
+				ia, ok := st.Addr.(*ssa.IndexAddr)
+				if !ok {
+					continue
+				}
+				for v := range sourcesOf(ia.X) {
+					if resVals[v] {
+						bad = append(bad, "element of the assembled key overwritten at "+c.relPos(st.Pos()))
+					}
+				}
+			}
+		}
+		sort.Strings(bad)
+		c.Check(rule, fnName(fn)+"|assembled-key-returned-as-is", len(bad) == 0, fn.Pos(), fmt.Sprintf("%v", bad))
+	}
 }
